@@ -114,6 +114,13 @@ func checkStack(c *core.Ctx, name, tuple string, err error, want sc.Frame) {
 		c.Violate("first-frame/"+name, "first frame of the captured stack is not the expected caller",
 			fmt.Sprintf("%s\ngot  %s %s:%d\nwant %s %s:%d", tuple, gotFn, f.AbsPath, f.Lineno, want.Func, want.File, want.Line))
 	}
+	// the INNERMOST stack wins: wrapping the result with another stack here must not change the answer
+	if f2, l2, fn2, ok2 := errors.GetOneLineSource(errors.WithStack(errors.WithHint(err, "h"))); true {
+		f1, l1, fn1, ok1 := errors.GetOneLineSource(err)
+		if f1 != f2 || l1 != l2 || fn1 != fn2 || ok1 != ok2 {
+			c.Violate("one-line-source-innermost/"+name, "GetOneLineSource does not report the innermost stack", fmt.Sprintf("%s\n%s:%d %s vs %s:%d %s", tuple, f1, l1, fn1, f2, l2, fn2))
+		}
+	}
 	file, line, fn, ok := errors.GetOneLineSource(err)
 	// the library reports the last dot-separated component of the function name
 	short := want.Func[strings.LastIndex(want.Func, ".")+1:]
